@@ -65,8 +65,9 @@ def attr_src(kind, toks):
     return f"#[{kind}(" + " ".join(tok_src(t) for t in toks) + ")]"
 
 
-def item_src(pos, ts_lists, serde_lists):
-    A = " ".join([attr_src("serde", l) for l in serde_lists] + [attr_src("ts", l) for l in ts_lists])
+def item_src(pos, ts_lists, serde_lists, ts_first=False):
+    sd, ts = [attr_src("serde", l) for l in serde_lists], [attr_src("ts", l) for l in ts_lists]
+    A = " ".join(ts + sd if ts_first else sd + ts)       # the order in which the two kinds of list are written must not matter
     return ITEM[pos].format(A=A)
 
 
@@ -85,6 +86,7 @@ def cases(ctx):
             # both spellings, different values: ts wins
             es2 = [entry(k, i + 1) for i, k in enumerate(ks)]
             out.append(("ts_wins", pos, [join(es)], [join(es2)], ([join(es)], [])))
+            out.append(("ts_wins:ts_first", pos, [join(es)], [join(es2)], ([join(es)], [])))      # the same with the ts list written above the serde list
             # a trailing comma (what rustfmt writes for multi-line attributes) must not matter, in either spelling
             out.append(("trailing_comma:serde", pos, [], [join(es) + [PU(",")]], ([], [join(es)])))
             out.append(("trailing_comma:ts", pos, [join(es) + [PU(",")]], [], ([join(es)], [])))
@@ -124,7 +126,7 @@ def run(ctx):
     # flatten (case, reference) into driver lines
     lines, idx = [], []
     for k, (kind, pos, ts, sd, ref) in enumerate(cs):
-        lines.append(["attrs", pos, item_src(pos, ts, sd)])
+        lines.append(["attrs", pos, item_src(pos, ts, sd, ts_first=kind.endswith(":ts_first"))])
         idx.append((k, "case"))
         if ref is not None:
             lines.append(["attrs", pos, item_src(pos, ref[0], ref[1])])
@@ -149,7 +151,7 @@ def run(ctx):
         for k, (kind, pos, ts, sd, ref) in enumerate(cs):
             total += 1
             r = res[(k, "case")]
-            case = {"kind": kind, "position": pos, "item": item_src(pos, ts, sd), "features": list(feats)}
+            case = {"kind": kind, "position": pos, "item": item_src(pos, ts, sd, ts_first=kind.endswith(":ts_first")), "features": list(feats)}
             if kind == "ts_unknown_is_error":
                 if "err" not in r:
                     fails += 1
